@@ -44,6 +44,9 @@ type vsub[T comparable] struct {
 	active             *vcb[T]
 	unsub              func()
 	ref                bool
+	// hook, if set, runs inside every callback (after the entry checks, before the callback yields and exits): the
+	// utility harness uses it to call withinContext of OnUpdateWithContext from inside the callback
+	hook func(prev, new T)
 }
 
 type vworld[T comparable] struct {
@@ -98,6 +101,9 @@ func (w *vworld[T]) callback(sub *vsub[T]) func(prev, new T) {
 			}
 			wr.ord, wr.prev, wr.new, wr.refEnter = len(w.changes), prev, new, e.enter
 			w.changes = append(w.changes, wr)
+		}
+		if sub.hook != nil {
+			sub.hook(prev, new)
 		}
 		yields(sub.yields)
 		e.exit = s.Tick()
